@@ -380,7 +380,8 @@ func evalMutant(c mutCase) (o outcome) {
 			// number, a bad escape in a key) leave no room for doubt about the
 			// offending node: the position must be that entry (key or value) or
 			// lie inside it, not at an ancestor or a neighbour.
-			if precise(a.Label, c.Arg) && !nameLike(a.Target) && lab != "at-fault" && lab != "inside-fault" && lab != "unattributed" && lab != "not-at-a-node-start" {
+			if precise(a.Label, c.Arg) && !nameLike(a.Target) && lab != "at-fault" && lab != "inside-fault" && lab != "unattributed" && lab != "not-at-a-node-start" &&
+				!(strings.HasPrefix(a.Label, "num-") && atImmediateParent(ixJ, l, a.Fault)) {
 				cands := ixJ.at(l.Line, l.Col)
 				where := "?"
 				if len(cands) > 0 {
@@ -857,4 +858,21 @@ func verifRoot() string {
 		return r
 	}
 	return filepath.Join("..", "..")
+}
+
+// atImmediateParent: the position is the start of the object that directly holds the faulted entry.
+// A numeric keyword can be wrong in relation to a sibling keyword (minimum > maximum; ogen also reads
+// an out-of-range integer into its unsigned field without complaint and then compares it): the
+// schema object that holds both is then the offending node.
+func atImmediateParent(ix *docIndex, l locInfo, fault []int) bool {
+	if len(fault) == 0 {
+		return false
+	}
+	parent := fault[:len(fault)-1]
+	for _, c := range ix.at(l.Line, l.Col) {
+		if len(c.Path) == len(parent) && isPrefix(c.Path, parent) {
+			return true
+		}
+	}
+	return false
 }
